@@ -12,7 +12,7 @@ import random
 import sys
 import types
 from dataclasses import dataclass, field
-from typing import Any
+from typing import ClassVar, Any
 
 from pyoak.node import ASTNode
 from pyoak.origin import NO_ORIGIN, CodeOrigin, MemoryTextSource, get_code_range
@@ -90,7 +90,9 @@ TUP_SHAPES = [
 ]
 
 NAMES = ["a", "b", "z", "aa", "ab", "B", "Z", "_x", "a1", "a_b", "ba", "x10", "x9", "child", "items", "root",
-         "name", "value", "idx", "id_", "ident", "origin_", "content", "A", "a0", "zz", "m", "M", "_", "_d"]
+         "name", "value", "idx", "id_", "ident", "origin_", "content", "A", "a0", "zz", "m", "M", "_", "_d",
+         # names that coincide with identifiers the generated accessor bodies / their signatures use
+         "o", "i", "f", "sort_keys", "skip_id", "skip_origin", "ret"]
 
 
 @dataclass
@@ -198,7 +200,7 @@ BASE_LEVEL = [
 ]
 BASE_NAMES = ("id", "content_id", "origin")
 AST = "ASTNode"
-MIXINS = ("MixPlain", "MixHelper")
+MIXINS = ("MixPlain", "MixHelper", "MixAnnot")
 
 
 class MixPlain:
@@ -206,6 +208,25 @@ class MixPlain:
 
     def describe(self) -> str:
         return type(self).__name__
+
+
+class MixAnnot:
+    """an interface-like mix-in (not a dataclass): it only ANNOTATES attributes that node classes may then declare as
+    fields (no class attribute is set, so no default is inherited); `typing.get_type_hints` lists these names at the
+    mix-in's place of the reversed MRO, `dataclasses.fields` where the node class declares them.  The names are used only
+    by `directed_hiers`, with the same kind (property / child / tuple of children) as annotated here: a mix-in that
+    annotates a name with ANOTHER kind than the field declared under that name is a contradictory class definition
+    (the resolved hint of the most derived annotation wins over the dataclass field's own) -- a don't-care"""
+
+    mx_name: str
+    mx_child: "KBase | None"
+    mx_items: "tuple[KBase, ...]"
+    mx_z: int
+    mx_M: "ClassVar[int]"
+    mx_o: "KBase | None"
+
+    def label(self) -> str:
+        return f"<{getattr(self, 'mx_name', None)}>"
 
 
 class MixHelper:
@@ -329,7 +350,7 @@ class Hier:
                     "from typing import Literal, Optional, Tuple, Union\n"
                     "from pyoak.node import ASTNode\n"
                     "from pyoak.origin import NO_ORIGIN, Origin\n"
-                    "from zoo_c12 import Hue, KBase, KA, KB, KLen0, KBoolF, MixPlain, MixHelper\n")
+                    "from zoo_c12 import Hue, KBase, KA, KB, KLen0, KBoolF, MixPlain, MixHelper, MixAnnot\n")
 
     def open_module(self) -> None:
         name = f"c12gen_{self.uid}"
@@ -532,6 +553,50 @@ def gen_hier(rng: random.Random, shapes=("chain", "chain", "diamond", "diamond",
             return h
         RETRIES[1] += 1
     raise RuntimeError("the class generator cannot produce a family CPython/pyoak accept")
+
+
+def directed_hiers(rng: random.Random) -> list[Hier]:
+    """hand-made families for mechanisms the random generator reaches only by luck:
+    (1) child / property fields named like the identifiers of the generated accessor bodies (`o`, `i`, `sort_keys`, ...)
+        AFTER a tuple-valued child field (whose loop binds `i` and `o`);
+    (2) fields whose names an annotation-only mix-in mentions first (either side of the base list), so that the order of
+        `typing.get_type_hints` differs from the order of `dataclasses.fields`"""
+    out = []
+    for _ in range(40):
+        try:
+            h = Hier(next_uid(), [], rng.random() < 0.4, [[]], "chain")
+            h.bases, h.levels = [], []
+            names = ["a", "o", "i", "sort_keys", "f", "z", "ret", "skip_id"]
+            kinds = ["ct", "c1", "c1", "p", rng.choice(["c1", "p"]), "ct", rng.choice(["c1", "ct"]), "p"]
+            lvl = [gen_field(rng, n, k) for n, k in zip(names, kinds)]
+            for f in lvl[:3]:
+                f.init = True
+            h.bases.append([AST]); h.levels.append(lvl)
+            if rng.random() < 0.5:
+                h.bases.append([0]); h.levels.append([gen_field(rng, "b", "ct"), gen_field(rng, "o", "c1")])
+            _legalise(h)
+            if _coherent(h) and _trial(h) is None:
+                out.append(h)
+                break
+        except TypeError:
+            continue
+    for side in (0, 1):
+        for _ in range(40):
+            try:
+                h = Hier(next_uid(), [], rng.random() < 0.4, [[]], "mixin")
+                h.bases, h.levels = [], []
+                h.bases.append([AST] if side else ["MixAnnot", AST])
+                h.levels.append([gen_field(rng, "kind", "p"), gen_field(rng, "first", "c1"), gen_field(rng, "mx_name", "p")])
+                h.bases.append([0, "MixAnnot"] if side else [0])
+                h.levels.append([gen_field(rng, "aa", "p"), gen_field(rng, "mx_child", "c1"), gen_field(rng, "mx_z", "p"),
+                                 gen_field(rng, "mx_M", "p"), gen_field(rng, "mx_items", "ct"), gen_field(rng, "mx_o", "c1")])
+                _legalise(h)
+                if _coherent(h) and _trial(h) is None:
+                    out.append(h)
+                    break
+            except TypeError:
+                continue
+    return out
 
 
 # ------------------------------------------------------------------ instances
